@@ -4,7 +4,7 @@ never size/index from header fields unchecked (R-ALLOC/R-GUARD with header field
 from vlib import fixtures
 import re
 
-from rules import order, openguard, taint, trunc, partial
+from rules import order, openguard, taint, trunc, partial, scratch
 from vlib.mir import Fn
 from vlib.run import Broken
 
@@ -21,7 +21,7 @@ def need(fx, fid):
 def run(ctx):
     fx = ctx.facts("default")
     order.use_facts(fx)
-    fixtures.run(ctx, ['order', 'taint', 'trunc', 'arithmul', 'dropwrite', 'varint', 'openguard', 'takeexact', 'createtrunc'])
+    fixtures.run(ctx, ['order', 'taint', 'trunc', 'arithmul', 'dropwrite', 'varint', 'openguard', 'takeexact', 'createtrunc', 'flushwhole'])
     R = "R-ORDER"
     f = need(fx, MV + "resize_to_capacity")
     ctx.analysed_fns.add(f.id)
@@ -104,6 +104,8 @@ def run(ctx):
     # constructors of file-backed writers start from an empty file
     order.create_truncates(ctx, fx, fx.files() if ctx.tier == 'thorough' else files + ['src/concurrency/async_blob_store.rs'])
     ctx.floor('R-CREATE.truncate.sites', 2)
+    # a write buffer that is cleared after a flush was flushed whole (no partial flush on the pinned tree)
+    scratch.partial_flush_then_clear(ctx, fx, fx.files() if ctx.tier == 'thorough' else files)
     ctx.floor('R-VARINT.threshold.writers', 1)
     return dict(
         level_note="decides ordering/durability structure, the open-time size comparison and unchecked use of header "
